@@ -161,15 +161,19 @@ func VF_C09_c_timestamp() {
 	// clock terms make the query non-linear
 	iv := int64(1 + vf.Choice("intervalSec", vf.Param("maxInterval", 3)))
 	slot.Init(iv)
-	ts := vf.I64("timestamp")
-	blk := &types.Block{Header: &types.BlockHeader{Timestamp: ts, PubKey: []byte{0xff}}}
 	d := &DPoS{}
 	t0 := time.Now().UnixNano()
+	vf.Assume(t0 < 1<<61) // the clock is far from the int64 horizon (2^61 ns = year 2043)
+	// the block timestamp is taken relative to the clock reading so that a counterexample replays under the real clock
+	delta := vf.I64("timestamp-now")
+	vf.Assume(delta < 1<<50)
+	vf.Assume(delta > -(1 << 50))
+	ts := t0 + delta
+	// Hash is preset: the rejection path only logs the block id, the id computation is not under test here
+	blk := &types.Block{Hash: make([]byte, 32), Header: &types.BlockHeader{Timestamp: ts, PubKey: []byte{0xff}}}
 	ok := d.VerifyTimestamp(blk)
 	t1 := time.Now().UnixNano()
-	vf.Assume(t0 >= 0)
-	vf.Assume(t1 < 1<<62)
-	vf.Assume(ts < 1<<62)
+	vf.Assume(t1 < 1<<61)
 	vf.Reach("C09.c.timestamp")
 	const ms = 1000000
 	if ts >= t1+2*iv*1000*ms+ms {
